@@ -431,6 +431,12 @@ def plan(tier):
                     space=Prod(Prod(Const(["style"]), Const(sty)), Prod(Const(["p", "style"]), Const(sty + [None, "s"])),
                                Const(["ctor", "append"])),
                     note="the style prop given as a dict is written like any other dict (None values as null)"))
+    special = ["name", "children", "key", "ref", "className", "htmlFor", "for_", "type", "args", "kwargs", "x", "tagify"]
+    out.append(dict(kind="space", name="prop-names-that-look-special", fn=fn_props,
+                    space=Prod(Prod(Const(special), Const(["v", 3, None, {"a": 1}])), Prod(Const(special[:4] + ["p"]), Const(["w"])),
+                               Const(["ctor", "append"])),
+                    note="props called name / children / key / ref / self / args / ... are ordinary props: written once under "
+                         "their normalised name"))
     out.append(dict(kind="space", name="children-added-through-extend", fn=fn_props,
                     space=Prod(pv, Const([("p", 1)]), Const(["extend-tuple", "extend-generator", "extend-one-by-one"])),
                     note="children added with extend() of a tuple / a generator / one at a time around empty iterables"))
